@@ -2221,6 +2221,11 @@ pub(crate) fn skip_attributes<R: Reader>(
                     return Err(Error::UnknownForm(form));
                 }
             };
+            // The length of a block can't be skipped if it extends past the end of the input.
+            // Checking this now also ensures that accumulating further lengths can't overflow.
+            if skip_bytes > input.len() {
+                return Err(Error::UnexpectedEof(input.offset_id()));
+            }
             break;
         }
     }
